@@ -77,7 +77,7 @@ def items(draw, cfg, fields):
         else:
             value = draw(str_values(prof))
     elif kind == "num":
-        value = draw(st.one_of(st.integers(-5, 300), st.sampled_from([1.5, -0.25, 0, 10 ** 12])))
+        value = draw(st.one_of(st.integers(-5, 300), st.sampled_from([1.5, -0.25, 0, 10 ** 12, 9007199254740993, -(2 ** 63) - 1, 2 ** 64 + 1])))
     elif kind == "numlist":
         value = draw(st.lists(st.integers(0, 2000 if BIG[0] else 20), min_size=1, max_size=40 if BIG[0] else 3))
         chain = draw(st.sampled_from([[], ["all"]]))
